@@ -210,7 +210,7 @@ func c09Strategy(cc *run.Case, ns namedStrat, raceOnly bool) {
 
 func c09(ctx *run.Ctx, raceOnly bool) {
 	runtime.GOMAXPROCS(16)
-	nrand := ctx.Pick(1, 5)
+	nrand := ctx.Pick(1, 8)
 	reps := 1
 	if raceOnly {
 		reps = ctx.Pick(3, 10) // race reports vary from run to run: repeat the racy batch
